@@ -59,6 +59,14 @@ def fillLoop : Nat → Stack → Nat → Bytes × Option ErrClass × Stack
 
 def maxConsecutiveEmptyReads : Nat := 100
 
+/-- `ReadByte` of a source that is itself an io.ByteScanner (bytes.Reader, bytes.Buffer, the caller's own bufio.Reader ...): the
+    next byte of what it carries; how it was cut into `Read` results has no meaning for it, so the chunk list is left without
+    empty pieces -/
+def srcReadByte : List Bytes → Option (UInt8 × List Bytes)
+  | [] => none
+  | [] :: cs => srcReadByte cs
+  | (b :: bs) :: cs => some (b, (bs :: cs).filter (fun c => c.length ≠ 0))
+
 /-- `bufio.Reader.ReadByte`:  `for b.r == b.w { if b.err != nil { return 0, b.readErr() }; b.fill() }` -/
 def Stack.readByte : Stack → Outcome (UInt8 × Stack)
   | .buf i sz (c :: pend) er => .ok (c, .buf i sz pend er)
@@ -68,7 +76,12 @@ def Stack.readByte : Stack → Outcome (UInt8 × Stack)
     | (c :: rest, e, i') => .ok (c, .buf i' sz rest e)
     | ([], some e, _) => .err e
     | ([], none, _) => .err .other
-  | _ => .err .other          -- not a buffered reader: the Decoder would be using the caller's own ReadByte
+  | .src s =>
+    -- the Decoder was given an io.ByteScanner and uses it directly (NewDecoder: "buffering can be disabled ...")
+    match srcReadByte s.chunks with
+    | some (c, cs) => .ok (c, .src { s with chunks := cs })
+    | none => .err s.fin.err
+  | .lim _ _ => .err .other   -- an io.LimitedReader is no ByteScanner: NewDecoder always wraps it in a bufio.Reader
 
 /-- the bytes a stack still carries, whatever the chunking and whatever sits in its buffers -/
 def Stack.content : Stack → Bytes
